@@ -26,6 +26,7 @@ func (fsm *storeFSM) Apply(l *raft.Log) interface{} {
 	s.mu.Lock()
 	defer s.mu.Unlock()
 
+	prev := fsm.data
 	err := func() interface{} {
 		switch cmd.GetType() {
 		case internal.Command_RemovePeerCommand:
@@ -104,6 +105,12 @@ func (fsm *storeFSM) Apply(l *raft.Log) interface{} {
 	}()
 
 	// Copy term and index to new metadata.
+	// A rejected command leaves fsm.data pointing at the metadata that has
+	// already been published (to readers and to raft snapshots), which must
+	// not be modified: stamp the term and index on a private copy.
+	if fsm.data == prev {
+		fsm.data = prev.Clone()
+	}
 	fsm.data.Term = l.Term
 	fsm.data.Index = l.Index
 
